@@ -158,6 +158,15 @@ pub fn rsp_fits(m: &RspM) -> bool {
     }
 }
 
+/// does the byte count fit its one-byte field (an empty payload has count 0, which fits)
+pub fn rsp_count_fits(m: &RspM) -> bool {
+    match m {
+        RspM::Coils(_, b) => (b.len() + 7) / 8 <= 255,
+        RspM::Regs(_, ws) => ws.len() * 2 <= 255,
+        _ => true,
+    }
+}
+
 fn reflect(mut v: u32, bits: u32) -> u32 {
     let mut r = 0;
     for _ in 0..bits {
